@@ -110,11 +110,42 @@ func genStructs(t *rapid.T) Case {
 	return c
 }
 
+// boundaryBases are the integers around which arithmetic and order go wrong: 0 and the units, the
+// ends of int64, +-2^62 (half the range: sums and differences of two such values wrap), +-200 years
+// in nanoseconds (two of them with opposite signs are further apart than MaxInt64), the powers of two
+// where narrower representations end and floor(sqrt(2^63)), where squares start to overflow.
+var boundaryBases = []int64{0, 1, -1, math.MinInt64, math.MaxInt64, 1 << 62, -(1 << 62), 6311520000000000000, -6311520000000000000,
+	1 << 53, -(1 << 53), 1 << 32, -(1 << 32), 1 << 31, -(1 << 31), 3037000500, -3037000500}
+
+// genPoolInt draws a boundary base shifted by -2..2 (never across the ends of int64).
+func genPoolInt(t *rapid.T) int64 {
+	var b int64
+	if rapid.Bool().Draw(t, "ends") {
+		// the bases whose pairwise differences overflow
+		b = rapid.SampledFrom(boundaryBases[3:9]).Draw(t, "end")
+	} else {
+		b = rapid.SampledFrom(boundaryBases).Draw(t, "base")
+	}
+	off := rapid.Int64Range(-2, 2).Draw(t, "off")
+	if (off > 0 && b > math.MaxInt64-off) || (off < 0 && b < math.MinInt64-off) {
+		off = -off
+	}
+	return b + off
+}
+
+// genInt draws an int64: half from the boundary pool, half from the shared generator.
+func genInt(t *rapid.T) int64 {
+	if rapid.Bool().Draw(t, "pool") {
+		return genPoolInt(t)
+	}
+	return val.GenInt().Draw(t, "x")
+}
+
 func genInts(t *rapid.T, lo, hi int) []val.V {
 	n := rapid.IntRange(lo, hi).Draw(t, "n")
 	res := make([]val.V, n)
 	for i := range res {
-		res[i] = val.I(val.GenInt().Draw(t, "x"))
+		res[i] = val.I(genInt(t))
 	}
 	return res
 }
@@ -129,7 +160,7 @@ func genDivisor(t *rapid.T) int64 {
 	case 2, 3:
 		return rapid.Int64Range(-9, 9).Draw(t, "dsmall")
 	default:
-		return val.GenInt().Draw(t, "dany")
+		return genInt(t)
 	}
 }
 
@@ -151,7 +182,7 @@ func genArith(t *rapid.T) Case {
 		if rapid.IntRange(0, 2).Draw(t, "xsmall") == 0 {
 			x = rapid.Int64Range(-20, 20).Draw(t, "x") // quotients reach 0 early
 		} else {
-			x = val.GenInt().Draw(t, "x")
+			x = genInt(t)
 		}
 		c.Args = []val.V{val.I(x)}
 		for i := 0; i < k; i++ {
@@ -163,16 +194,32 @@ func genArith(t *rapid.T) Case {
 			ext := []int64{math.MinInt64, math.MinInt64 + 1, math.MaxInt64, math.MaxInt64 - 1, -1, 1, 0}
 			c.Args = []val.V{val.I(rapid.SampledFrom(ext).Draw(t, "x")), val.I(rapid.SampledFrom(ext).Draw(t, "y"))}
 		} else {
-			c.Args = []val.V{val.I(val.GenInt().Draw(t, "x")), val.I(genDivisor(t))}
+			c.Args = []val.V{val.I(genInt(t)), val.I(genDivisor(t))}
 		}
 	}
 	return c
 }
 
+// genCompare draws a triple of one type. Half of the triples come entirely from the boundary pool
+// (so pairs of opposite sign whose difference does not fit int64 are frequent), a quarter are built by
+// relation (equal / neighbour / other) and a quarter are ordinary values of the type.
+// Times stay strictly inside (MinInt64, MaxInt64): the two ends stand for "unbounded" elsewhere in the
+// library (DESIGN section 4) and are not claimed to be ordinary instants.
 func genCompare(t *rapid.T) Case {
 	law := rapid.SampledFrom([]string{"c.num", "c.time", "c.dur"}).Draw(t, "law")
 	c := Case{Law: law}
-	draw := func(label string) int64 {
+	clamp := func(x int64) int64 {
+		if law == "c.time" {
+			if x == math.MinInt64 {
+				return x + 1
+			}
+			if x == math.MaxInt64 {
+				return x - 1
+			}
+		}
+		return x
+	}
+	ordinary := func(label string) int64 {
 		switch law {
 		case "c.num":
 			return val.GenInt().Draw(t, label)
@@ -190,21 +237,42 @@ func genCompare(t *rapid.T) Case {
 		}
 		return val.D(x)
 	}
-	xs := []int64{draw("a")}
-	for i := 1; i < 3; i++ {
-		base := xs[rapid.IntRange(0, len(xs)-1).Draw(t, "base")]
-		switch rapid.IntRange(0, 3).Draw(t, "rel") {
-		case 0:
-			xs = append(xs, base) // equal
-		case 1:
-			// a neighbour (time stays inside the range the printer of the program path can format)
-			d := rapid.SampledFrom([]int64{-1, 1}).Draw(t, "delta")
-			if (d > 0 && base == math.MaxInt64) || (d < 0 && base == math.MinInt64) {
-				d = -d
+	var xs []int64
+	switch mode := rapid.IntRange(0, 3).Draw(t, "mode"); mode {
+	case 0, 1:
+		for i := 0; i < 3; i++ {
+			xs = append(xs, clamp(genPoolInt(t)))
+		}
+	case 2:
+		if rapid.Bool().Draw(t, "poolbase") {
+			xs = []int64{clamp(genPoolInt(t))}
+		} else {
+			xs = []int64{ordinary("a")}
+		}
+		for i := 1; i < 3; i++ {
+			base := xs[rapid.IntRange(0, len(xs)-1).Draw(t, "base")]
+			switch rapid.IntRange(0, 3).Draw(t, "rel") {
+			case 0:
+				xs = append(xs, base) // equal
+			case 1:
+				d := rapid.SampledFrom([]int64{-1, 1}).Draw(t, "delta")
+				if (d > 0 && base == math.MaxInt64) || (d < 0 && base == math.MinInt64) {
+					d = -d
+				}
+				xs = append(xs, clamp(base+d)) // a neighbour
+			case 2:
+				if base != math.MinInt64 {
+					xs = append(xs, clamp(-base)) // the mirror image: opposite sign, same magnitude
+				} else {
+					xs = append(xs, clamp(math.MaxInt64))
+				}
+			default:
+				xs = append(xs, clamp(genPoolInt(t)))
 			}
-			xs = append(xs, base+d)
-		default:
-			xs = append(xs, draw("other"))
+		}
+	default:
+		for i := 0; i < 3; i++ {
+			xs = append(xs, ordinary("x"))
 		}
 	}
 	for _, x := range xs {
@@ -249,7 +317,7 @@ func genStrings(t *rapid.T) Case {
 			case 0:
 				c.Args = append(c.Args, val.N(genNameSym(t)))
 			case 1:
-				c.Args = append(c.Args, val.I(val.GenInt().Draw(t, "num")))
+				c.Args = append(c.Args, val.I(genInt(t)))
 			case 2:
 				c.Args = append(c.Args, val.S(val.GenString().Draw(t, "str")))
 			default:
@@ -337,7 +405,7 @@ func genReducers(t *rapid.T) Case {
 				c.Args = append(c.Args, c.Args[rapid.IntRange(0, len(c.Args)-1).Draw(t, "which")])
 				continue
 			}
-			c.Args = append(c.Args, val.I(val.GenInt().Draw(t, "x")))
+			c.Args = append(c.Args, val.I(genInt(t)))
 		}
 	}
 	c.Perms = genPerms(t, len(c.Args))
